@@ -1,9 +1,18 @@
-"""C08 -- the SCC reader shows what a CEA-608 decoder displays, when it displays it.   Level: other (bounded tier only).
+"""C08 -- the SCC reader shows what a CEA-608 decoder displays, when it displays it.   Level: other (time clause proved on stated word streams + bounded).
 
 SCC files generated from the pop-on, roll-up and paint-on protocol grammars are read with the real
 `ttconv.scc.reader.to_model(text, config)`; the document is compared at every frame with the displayed memory of an independent
 CEA-608 decoder (specs/ref608.py, written from CEA-608 / 47 CFR 15.119) fed the same words.  The decoder state machine of ttconv
-(about 1.2 kLOC of string/dict manipulation) is outside the symbolic fragment of pyvc: no proof tier, nothing is counted as proved."""
+(about 1.2 kLOC of string/dict manipulation) over ARBITRARY word sequences is outside the symbolic fragment of pyvc: the equivalence with
+the reference decoder is bounded only.
+
+Proof tier (contracts/c08_proofs.py): the TIME clause -- begin/end are exact frame multiples at 30 fps (`:`) or 30000/1001 (`;`), never
+earlier than the line's time code, within the transmission window of the triggering word -- is proved for ALL time code labels of every
+line on a stated list of concrete word streams (pop-on with and without ENM, two rows with padding and channel-2 words, roll-up, paint-on):
+the real reader runs with the time code patterns replaced by regex stubs whose digit groups are symbolic (A-RE) and with
+SmpteTimeCode.add_frames used through its contract (contracts/callee.py; discharged for the real body by C12's add_frames harnesses in the
+same run, its precondition an obligation at every call site).  Two more streams (doubled control codes, EDM) carry the two known time
+findings as failing obligations of the proof tier."""
 import framework
 
 PROP = "C08"
@@ -56,14 +65,35 @@ def check(tier, seed, only=None, skip_a=False, skip_b=False):
       cov["functions_under_contract"].append(loader.locate(fn))
     except Exception as e:  # pylint: disable=broad-except
       undecided.append(f"obligation={fn} reason=function-not-found:{e}")
+  if not skip_a:
+    from contracts import c08_proofs
+    from contracts.c12 import harnesses_for
+    from specs import smpte
+    hs = [c08_proofs.stream_time_harness(shape, kind) for shape in c08_proofs.SHAPES for kind in ("ndf", "df")]
+    for rn in ("30", "30000/1001"):       # discharge the callee contract SmpteTimeCode.add_frames for the real body
+      hs += [h for h in harnesses_for(rn, smpte.RATES[rn]) if h.name.startswith("add_frames@")]
+    for h in hs:
+      h.budget_s, h.max_paths = 300.0, 2000
+    if only:
+      hs = [h for h in hs if only in h.name]
+    cov_a, f_a, u_a, e_a = framework.run_tier_a(PROP, hs)
+    located = {f["qualname"] for f in cov_a.get("functions_under_contract", [])}
+    cov_a["functions_under_contract"] = cov_a.get("functions_under_contract", []) + [f for f in cov["functions_under_contract"] if f["qualname"] not in located]
+    cov = cov_a
+    findings += f_a
+    undecided += u_a
+    errors += e_a
   if not skip_b:
-    data, errors = framework.run_tier_b("c08", tier, seed)
+    data, errs_b = framework.run_tier_b("c08", tier, seed)
+    errors += errs_b
     if data:
-      findings = framework.findings_from_rtc(data)
+      findings += framework.findings_from_rtc(data)
       for k in ("evaluations", "distinct_nontrivial", "rule", "bounded_scope", "exhaustive", "samples", "per_contract"):
         cov[k] = data.get(k)
-  cov["explanation"] = ("Bounded run-time contracts only: generated SCC streams (pop-on, roll-up, paint-on and mixed grammars x text_align "
+  cov["explanation"] = ("Tier A (proved, pyvc + z3/cvc5, assumptions A-RE and the add_frames contract): on seven concrete word streams x {`:`, `;`} the "
+                        "real reader runs with symbolic time code labels on every line; begin/end of every paragraph are exact frame multiples, not "
+                        "before the line's label, within the window of the triggering word, for ALL valid labels.  Tier B: generated SCC streams (pop-on, roll-up, paint-on and mixed grammars x text_align "
                         "configuration) are read by the real to_model and compared frame by frame (characters, rows, style runs, change "
-                        "times) with an independent CEA-608 decoder.  No symbolic (Tier A) obligations; nothing is counted as proved.")
+                        "times) with an independent CEA-608 decoder (bounded, not counted as proved).")
   cov["trusted_base"] = ASSUMPTIONS
-  return framework.Outcome(PROP, tier, seed, "exploration", cov, ASSUMPTIONS, findings, undecided, errors, 0.0)
+  return framework.Outcome(PROP, tier, seed, "other", cov, ASSUMPTIONS, findings, undecided, errors, 0.0)
